@@ -329,8 +329,19 @@ def search(ctx):
         got = sorted(o.value for o in getattr(Basis, name).value)
         if got != sorted(ops):
             ctx.violation('synth.basis_def', f'Basis.{name} is {got}, documented {sorted(ops)}', input={'basis': name})
-    for k in range(ctx.scale(160, 2500)):
-        spec = gen_spec(rng)
+    # one gate of every order-sensitive type, requested by table and pinned by fix_gate(..., gate_type=T) in its three forms
+    directed = []
+    from cirbo.core.circuit import gate as _G
+    for ty in ('GT', 'LT', 'GEQ', 'LEQ', 'LNOT', 'RNOT', 'LIFF', 'RIFF'):
+        gt = getattr(_G, ty)
+        table = ''.join('1' if gt.operator(bool(a), bool(b)) else '0' for a in (0, 1) for b in (0, 1))
+        for con in (['fixBothType', 2, 0, 1, ty], ['fixType', 2, ty], ['fixSecondType', 2, 1, ty]):
+            directed.append({'n': 2, 'm': 1, 'N': 1, 'table': [table], 'bkind': 'FULL', 'basis': list(BASES['FULL']), 'normalized': False,
+                             'cons': [con], 'edit_list_after': None})
+    for k in range(-len(directed), ctx.scale(160, 2500)):
+        spec = directed[k] if k < 0 else gen_spec(rng)
+        if k < 0:
+            ctx.count('directed:order_sensitive_type_pinned')
         ctx.case(json.dumps(['s', spec]))
         try:
             f, accepted, rejected = make_finder(spec)
